@@ -14,13 +14,38 @@ use std::{
 pub static LAST_PANIC: Mutex<Option<String>> = Mutex::new(None);
 pub static PANIC_COUNT: std::sync::atomic::AtomicUsize = std::sync::atomic::AtomicUsize::new(0);
 
+/// signatures ("file|message prefix") of panics that are recorded findings; loaded from $AXV_KNOWN_PANICS (one per line)
+pub static KNOWN_PANICS: Mutex<Vec<String>> = Mutex::new(Vec::new());
+pub static KNOWN_PANIC_HITS: Mutex<Vec<String>> = Mutex::new(Vec::new());
+
 pub fn install_panic_hook() {
+    if let Ok(p) = std::env::var("AXV_KNOWN_PANICS") {
+        if let Ok(t) = std::fs::read_to_string(p) {
+            *KNOWN_PANICS.lock().unwrap() = t.lines().map(|l| l.trim().to_string()).filter(|l| !l.is_empty()).collect();
+        }
+    }
     std::panic::set_hook(Box::new(|info| {
-        let loc = info.location().map(|l| format!("{}:{}", l.file().rsplit("src/").next().unwrap_or(l.file()), l.line())).unwrap_or_default();
+        let file = info.location().map(|l| l.file().rsplit("src/").next().unwrap_or(l.file()).to_string()).unwrap_or_default();
+        let line = info.location().map(|l| l.line()).unwrap_or(0);
+        let msg = if let Some(s) = info.payload().downcast_ref::<&str>() { s.to_string() } else if let Some(s) = info.payload().downcast_ref::<String>() { s.clone() } else { String::new() };
+        // signature without line numbers (they move when unrelated code is edited) and without variable parts
+        let head: String = msg.chars().take_while(|c| !c.is_ascii_digit()).take(60).collect();
+        let sig = format!("{}|{}", file, head.trim());
         if std::env::var("AXV_PANIC_VERBOSE").is_ok() { eprintln!("PANIC {info}"); }
-        *LAST_PANIC.lock().unwrap() = Some(loc);
+        *LAST_PANIC.lock().unwrap() = Some(format!("{sig}|{line}"));
         PANIC_COUNT.fetch_add(1, std::sync::atomic::Ordering::SeqCst);
     }));
+}
+
+/// a contained panic whose signature is a recorded finding is reported as an error outcome (with the signature)
+fn panic_out(sig_line: String) -> Out {
+    let sig = sig_line.rsplitn(2, '|').nth(1).unwrap_or("").to_string();
+    if KNOWN_PANICS.lock().unwrap().iter().any(|k| *k == sig) {
+        KNOWN_PANIC_HITS.lock().unwrap().push(sig.clone());
+        Out::Err { class: "panic_known".into(), text: sig }
+    } else {
+        Out::Panic(sig_line)
+    }
 }
 
 /// A SQL value as the trace carries it.
@@ -134,11 +159,11 @@ fn guarded(f: impl FnOnce() -> Out) -> Out {
     let r = std::panic::catch_unwind(std::panic::AssertUnwindSafe(f));
     let after = PANIC_COUNT.load(std::sync::atomic::Ordering::SeqCst);
     match r {
-        Err(_) => Out::Panic(LAST_PANIC.lock().unwrap().clone().unwrap_or_default()),
+        Err(_) => panic_out(LAST_PANIC.lock().unwrap().clone().unwrap_or_default()),
         Ok(o) => {
             if after != before {
                 // a panic happened in a pool worker while this call ran
-                Out::Panic(LAST_PANIC.lock().unwrap().clone().unwrap_or_default())
+                panic_out(LAST_PANIC.lock().unwrap().clone().unwrap_or_default())
             } else {
                 o
             }
